@@ -575,8 +575,11 @@ __strfd_card(
 			pd = d->d;
 		} else {
 			/* must be bizda now */
-			pd = dt_get_bday_q(
+			int bd = dt_get_bday_q(
 				that, __make_bizda_param(s.ab, BIZDA_ULTIMO));
+
+			/* not a business day, or no support */
+			pd = bd > 0 ? bd : 0;
 		}
 		res = ui99topstr(
 			buf, bsz, pd, 2 - (s.pad == DT_SPPAD_OMIT), padchar(s));
